@@ -99,6 +99,8 @@ def check_handwritten_serde(ctx, P, rule="E9.handserde"):
     if sf is not None:
         ev = evaluate(sf)
         casts = [s for s in subterms(ev.ret) if s.op == "cast" and str(s.a[2]) == "u8"]
+        # ... or the crate's own `u8::from(scheme)` (its table is compared with the reader's by the tag-table rule)
+        casts += [s for s in subterms(ev.ret) if s.op == "call" and B.cname(s) in ("From::from", "Into::into") and tuple(s.a[0][1][:2]) in (("u8", "SignatureSchemes"), ("SignatureSchemes", "u8")) and "<u8 as From<SignatureSchemes>>::from" in P.fns]
         tos = [s for s in ev.sites.values() if s.callee[0] == "ToString::to_string"]
         ctx.ob(rule, "SignatureSchemes/forms", bool(casts) and bool(tos), "text form = to_string() (Display table), binary form = `as u8` (declared discriminants) - both covered by the tag-table rule", where=where(sf))
 
